@@ -53,6 +53,7 @@ Section TleIncl.
       H3 : gen_init_guard3 _ _ _ _ _ _ _ < _ |- _ =>
         unfold gen_oe_inclination in H1, H2;
         unfold gen_init_guard3, gen_sgp4_cosIO, gen_oe_inclination in H3;
+        rewrite ?half_angle_1pcos in H3;
         pose proof (tle_incl_guard k H1 H2); lra
     end.
 
